@@ -120,6 +120,27 @@ def power(x, y):
 # ground axiom instantiation
 # ---------------------------------------------------------------------------
 
+_BND = {}
+
+
+def _bound(e):
+    k = e.get_id()
+    if k in _BND:
+        return _BND[k]
+    if z3.is_var(e):
+        r = True
+    elif z3.is_app(e):
+        r = any(_bound(c) for c in e.children())
+    elif z3.is_quantifier(e):
+        r = _bound(e.body())
+    else:
+        r = False
+    if len(_BND) > 200000:
+        _BND.clear()
+    _BND[k] = r
+    return r
+
+
 def _collect(e, acc, seen):
     if e.get_id() in seen:
         return
@@ -128,7 +149,8 @@ def _collect(e, acc, seen):
         d = e.decl()
         nm = d.name()
         if d.kind() == z3.Z3_OP_UNINTERPRETED and nm in TRANS_NAMES:
-            acc.setdefault(nm, []).append(e)
+            if not _bound(e):
+                acc.setdefault(nm, []).append(e)      # ground instances only (not under a binder)
         elif d.kind() == z3.Z3_OP_UNINTERPRETED and e.num_args() == 0 and nm in ("pi", "euler_e"):
             acc.setdefault(nm, []).append(e)
         for c in e.children():
